@@ -161,7 +161,7 @@ def run(shard, ctx):
                                  {"gen": c.custom, "cmd": c.name, "args": a}, exc=e)
             # the dictionaries of the request as other mappings (a read-only view, a UserDict, a ChainMap over defaults, an
             # OrderedDict): every level below the keyword arguments, the same list goes out
-            if setname == c.sets[0] and i % 3 == 1 and "_kwargs" in a:
+            if setname == c.sets[0] and i % 3 == 1 and ("_kwargs" in a or isinstance(a.get("data"), dict)):
                 import collections
                 import types
 
@@ -180,7 +180,10 @@ def run(shard, ctx):
                     return x
 
                 alt = DO.fresh(a)
-                alt["_kwargs"] = {k: remap(v, 1) if isinstance(v, list) else remap(v, 0) if isinstance(v, dict) and k in ("data",) else remap(v, 1) if isinstance(v, dict) else v for k, v in alt["_kwargs"].items()}
+                if "_kwargs" in alt:
+                    alt["_kwargs"] = {k: remap(v, 1) if isinstance(v, (list, dict)) else v for k, v in alt["_kwargs"].items()}
+                else:
+                    alt["data"] = remap(alt["data"], 0)  # the pages of a mode parameter list (the outer dictionary stays a dict)
                 try:
                     judge(ctx, c, setname, "dictionaries_as_%s" % how, a, exp, harness.construct(c, setname, alt))
                     ctx.count("dictionaries_given_as_other_mappings")
